@@ -226,44 +226,91 @@ def run(ctx):
     mps = [f for f in P.by_bname.get('cppcms::mount_point::match', []) if 'const char *' in f.id]
     ctx.require(len(mps) == 1, 'C20.R4: mount_point::match(char const*,...) not found')
     mp = mps[0]
-    hp, sp, pp = (q.param_by_index(mp, k) for k in (0, 1, 2))
-    wr = [i for i in q.field_writes(mp, 'pair::first') if mp.const_value(mp.N(i)['ch'][1]) == 1]
-    ctx.require(len(wr) >= 4, 'C20.R4: success writes in mount_point::match not found')
+    PARS = {q.param_by_index(mp, 0): 'P:host', q.param_by_index(mp, 1): 'P:script', q.param_by_index(mp, 2): 'P:path'}
+    FLDS = ('host_', 'script_name_', 'path_info_', 'group_', 'selection_')
 
-    def gate_for(fld, par):
+    def resolver(f, binding):
+        """canonical name of what an expression denotes: F:<field of mount_point>, P:<parameter of match>, or None"""
+        def res(node):
+            if node is None:
+                return None
+            r = f.ref_of(node)
+            if r is None:
+                return None
+            if r in binding:
+                return binding[r]
+            if f is mp and r in PARS:
+                return PARS[r]
+            sfx = model.strip_targs(r).rsplit('::', 1)[-1]
+            if r.startswith('f:') and 'mount_point::' in model.strip_targs(r) and sfx in FLDS:
+                return 'F:' + sfx
+            return None
+        return res
+    # analysis contexts: match itself, and every same-file helper it calls that also reports success (writes pair::first = true),
+    # with the helper's parameters bound to what match passes
+    ctxs = [(mp, {}, None)]
+    rmp = resolver(mp, {})
+    for c in mp.calls():
+        g = P.fns.get(mp.N(c).get('callee'))
+        if g is None or g is mp or g.entry is None or g.file != mp.file or mp.N(c).get('virt'):
+            continue
+        if not [i for i in q.field_writes(g, 'pair::first') if g.const_value(g.N(i)['ch'][1]) == 1]:
+            continue
+        bind = {}
+        for prm, a_ in zip(g.params, mp.args(c)):
+            v = rmp(a_)
+            if v is not None:
+                bind[prm['ref']] = v
+        ctxs.append((g, bind, c))
+    allw = []
+    for (f, bind, c) in ctxs:
+        allw += [(f, bind, c, i) for i in q.field_writes(f, 'pair::first') if f.const_value(f.N(i)['ch'][1]) == 1]
+    ctx.require(len(allw) >= 2, 'C20.R4: success writes of mount_point::match not found')
+
+    def gate_for(f, bind, fld, par):
+        res = resolver(f, bind)
+
         def pred(atom, pol):
-            n = mp.N(atom)
-            em = q.emptiness(mp, atom, pol)
-            if em is not None and (q.obj_field(mp, em[0]) or '').endswith('mount_point::' + fld):
+            n = f.N(atom)
+            em = q.emptiness(f, atom, pol)
+            if em is not None and res(f.obj(em[0])) == 'F:' + fld:
                 return em[1]
-            if n['k'] in model.CALL_KINDS and mp.bcallee(atom) == 'booster::regex_match':
-                a = mp.args(atom)
-                return pol is True and model.strip_targs(mp.ref_of(rx_arg(mp, atom)) or '').endswith('mount_point::' + fld) and mp.ref_of(a[0]) == par
+            if n['k'] in model.CALL_KINDS and f.bcallee(atom) == 'booster::regex_match':
+                a = f.args(atom)
+                return pol is True and res(rx_arg(f, atom)) == 'F:' + fld and res(a[0]) == par
             return False
-        return mp.gate_edges(pred)
-    gates = {'host_': gate_for('host_', hp), 'script_name_': gate_for('script_name_', sp), 'path_info_': gate_for('path_info_', pp)}
-    for k, w in enumerate(wr):
-        for fld, g in sorted(gates.items()):
-            ctx.check(mp.only_through(w, g), R4, 'match:success#%d:%s-unconstrained-or-matched' % (k, fld), 'mount point matches although %s was neither empty nor matched' % fld, mp.loc(w))
+        return f.gate_edges(pred)
+    SIDES = (('host_', 'P:host'), ('script_name_', 'P:script'), ('path_info_', 'P:path'))
+    for k, (f, bind, c, w) in enumerate(allw):
+        for fld, par in SIDES:
+            ok = f.only_through(w, gate_for(f, bind, fld, par))
+            if not ok and c is not None:
+                # the helper decides one side only: the other constraints must already hold where match calls it
+                ok = mp.only_through(c, gate_for(mp, {}, fld, par))
+            ctx.check(ok, R4, 'match:success#%d:%s-unconstrained-or-matched' % (k, fld), 'mount point matches although %s was neither empty nor matched' % fld, f.loc(w))
     # the returned sub-path comes from the selected side
     sel = mp.gate_edges(lambda atom, pol: mp.N(atom)['k'] == 'BinaryOperator' and mp.N(atom).get('op') == '==' and any(model.strip_targs(r).endswith('mount_point::selection_') for r in mp.subtree_refs(atom)) and
                         any(r.endswith('match_path_info') for r in mp.subtree_refs(atom)) and pol is True)
-    sw = [i for i in mp.all_nodes() if mp.N(i)['k'] == 'CXXOperatorCallExpr' and mp.N(i).get('op') == '=' and model.strip_targs(mp.ref_of(mp.N(i)['ch'][1]) or '').endswith('pair::second')]
-    ctx.check(len(sw) >= 6, R4, 'match:sub-path-writes-found', 'expected >=6 sub-path assignments', mp.where)
-    for k, w in enumerate(sw):
-        on_path_side = mp.only_through(w, sel)
-        src = mp.N(w)['ch'][2]
-        refs = mp.subtree_refs(src)
-        mvars = [r for r in refs if r.startswith('v:')]
-        if mvars:
-            # m[group_]: m was filled by regex_match(X, m, R): X and R must belong to the selected side
-            rm = [j for j in mp.calls() if mp.bcallee(j) == 'booster::regex_match' and len(real_args(mp, j)) == 3 and mp.ref_of(mp.args(j)[1]) == mvars[0]]
-            ok = len(rm) == 1 and mp.ref_of(mp.args(rm[0])[0]) == (pp if on_path_side else sp) and \
-                model.strip_targs(mp.ref_of(rx_arg(mp, rm[0])) or '').endswith('mount_point::' + ('path_info_' if on_path_side else 'script_name_')) and \
-                any(model.strip_targs(r).endswith('mount_point::group_') for r in refs)
-        else:
-            ok = (pp if on_path_side else sp) in refs
-        ctx.check(ok, R4, 'match:sub-path#%d:from-selected-side' % k, 'returned sub-path is not taken from the selected component', mp.loc(w))
+    nsw = 0
+    for (f, bind, c) in ctxs:
+        res = resolver(f, bind)
+        sw = [i for i in f.all_nodes() if f.N(i)['k'] == 'CXXOperatorCallExpr' and f.N(i).get('op') == '=' and model.strip_targs(f.ref_of(f.N(i)['ch'][1]) or '').endswith('pair::second')]
+        for w in sw:
+            nsw += 1
+            on_path_side = mp.only_through(w, sel) if c is None else mp.only_through(c, sel)
+            want_par, want_fld = ('P:path', 'F:path_info_') if on_path_side else ('P:script', 'F:script_name_')
+            src = f.N(w)['ch'][2]
+            refs = f.subtree_refs(src)
+            mvars = [r for r in refs if r.startswith('v:')]
+            if mvars:
+                # m[group_]: m was filled by regex_match(X, m, R): X and R must belong to the selected side
+                rm = [j for j in f.calls() if f.bcallee(j) == 'booster::regex_match' and len(real_args(f, j)) == 3 and f.ref_of(f.args(j)[1]) == mvars[0]]
+                grp = [x for x in f.walk(src) if res(x) == 'F:group_']
+                ok = len(rm) == 1 and res(f.args(rm[0])[0]) == want_par and res(rx_arg(f, rm[0])) == want_fld and bool(grp)
+            else:
+                ok = any(res(x) == want_par for x in f.walk(src))
+            ctx.check(ok, R4, 'match:sub-path#%d:from-selected-side' % nsw, 'returned sub-path is not taken from the selected component', f.loc(w))
+    ctx.check(nsw >= 3, R4, 'match:sub-path-writes-found', 'expected the sub-path assignments of mount_point::match', mp.where)
 
     # ---------------- R5
     ehs = [f for f in P.fns.values() if f.short == 'execute_handler' and 'base_handler' in (f.record or '')]
